@@ -26,9 +26,12 @@ func verifMkRuleCompact(forceRes string) *Rule {
 	if res == "" {
 		res = verifNames[rt.Choice(3)]
 	}
-	switch rt.Choice(6) {
+	switch rt.Choice(7) {
 	case 0:
 		return nil
+	case 6: // valid memory-adaptive rule, symbolic thresholds and water marks (reloads may differ in one of them only)
+		return &Rule{Resource: res, TokenCalculateStrategy: MemoryAdaptive, LowMemUsageThreshold: 1000 + int64(rt.U32n("lo", 2)), HighMemUsageThreshold: 1 + int64(rt.U32n("hi", 2)),
+			MemLowWaterMarkBytes: 1000 + int64(rt.U32n("lw", 2)), MemHighWaterMarkBytes: 2000 + int64(rt.U32n("hw", 2))}
 	case 1: // valid reject rule, symbolic integral threshold
 		return &Rule{Resource: res, Threshold: float64(rt.U32n("thr", 20))}
 	case 2: // invalid: negative threshold
